@@ -178,7 +178,10 @@ def regroup_dbscan(srccat, eps=4):
 
     log.debug("Clustering")
     # run clustering algorighm
-    db = DBSCAN(eps=eps, min_samples=1).fit(X)
+    # (the kd-tree measures |x - y| directly; the brute-force search that
+    #  'auto' picks for catalogues of ~10 sources computes |x|^2+|y|^2-2x.y,
+    #  which cannot resolve separations below ~10 mas on the unit sphere)
+    db = DBSCAN(eps=eps, min_samples=1, algorithm='kd_tree').fit(X)
 
     log.debug("Constructing groups")
     # count labels and regroup accordingly
